@@ -9,6 +9,9 @@ open SwayVerif.C27
 #print axioms pow_spec
 #print axioms u64_pow_spec
 #print axioms narrow_pow_spec
+#print axioms u64_log_spec
+#print axioms log2_spec
+#print axioms log_spec
 #print axioms vec_refines_list
 #print axioms vec_history
 #print axioms vec_new_inv
